@@ -12,4 +12,22 @@ META = {
                 "obligations; see evidence.partial.",
         "technique": "Lean 4 invariant proof over ledger traces + differential correspondence + Lean-evaluated monitors",
     },
+    "C02": {
+        "text": "Kernel-checked quiescence theorem (unbounded, by invariants over ledger traces): under the contract and NoStale, "
+                "if every committed delivery is completely written and every interrupted delivery was superseded, one final emit "
+                "empties the ledger and reports the largest commit; the tracker never panics on such traces. Tied to the real "
+                "ledger by correspondence; the drain predicate is evaluated in Lean on the real code's histories.",
+        "note": "Trusted: as C01. Full statement false on the unchanged tree (F1, recorded as a known finding).",
+        "technique": "Lean 4 invariant/quiescence proof over ledger traces + differential correspondence + Lean-evaluated monitors",
+    },
+    "C08": {
+        "text": "Kernel-checked theorems: filter_iff (the stage forwards a message iff it is a BEGIN/COMMIT marker or its table is "
+                "permitted, for every configuration and every regexp oracle) and cli_filter_correct, which is about the if/else "
+                "fragment of main.go translated to Lean by tools/factgen on every run (so the theorem is re-checked against what "
+                "the source says now): with at most one option given, the pipeline's decision equals the user's intent. The filter "
+                "stage model is tied to filter.go by differential correspondence on the real stage goroutine.",
+        "note": "Trusted: Lean kernel, factgen's statement subset (fails loudly outside it), Go regexp as the match oracle, the "
+                "harness. The flag parsing of gopkg.in/Nextdoor/cli.v1 itself is not modelled.",
+        "technique": "Lean 4 theorem over a regenerated (Go AST -> Lean) fragment + decision-table theorem + differential correspondence",
+    },
 }
